@@ -196,12 +196,12 @@ func goLit(k kind, l lval) string {
 		if l.null {
 			return "nil"
 		}
-		return "&" + base()
+		return "ptr(" + base() + ")"
 	case "null":
 		if l.null {
 			return k.name + "{}"
 		}
-		return k.name + "{" + base() + ", Valid: true}"
+		return k.name + "{" + strings.TrimPrefix(k.name, "sql.Null") + ": " + base() + ", Valid: true}"
 	default:
 		if l.null {
 			return "nil"
